@@ -8,7 +8,10 @@ F = ["cbor_load", "cbor_stream_decode", "_cbor_builder_append", "cbor_builder_*_
 def obligations(tier):
     fam = tc.family(tier)
     o = []
-    for v in (("dbg", "ndbg") if tier == "thorough" else ("dbg",)):
+    if tier == "thorough":
+        o += tc.batch_obligations("load_errors_q", tc.family("quick"), "h_load.c", {"P_ERR": 1}, variant="ndbg", truncations=True, weight_cap=120, max_cases=12, funcs=F, ptrcheck=False,
+                                  desc="NDEBUG build on the quick family")
+    for v in ("dbg",):
         o += tc.batch_obligations("load_errors", fam, "h_load.c", {"P_ERR": 1}, variant=v, truncations=True, weight_cap=120, max_cases=12, funcs=F, ptrcheck=False,
                                   desc="cbor_load on the skeleton and on every truncation, result struct pre-filled with nondeterministic values: NULL, nothing allocated, "
                                        "(code, position) in the reference decoder's allowed set, read consistent")
